@@ -82,6 +82,8 @@ def views_jobs(tier, seed):
         else:
             jobs.append(TraceJob(SMALL, fam, shards=8, args=['--cases', n * 6, '--extra', 'views,nobig'], label=fam + '-views@' + SMALL, timeout=3400))
             jobs.append(TraceJob(NOSSE, fam, shards=4, args=['--cases', n * 2, '--extra', 'views,nobig'], label=fam + '-views@' + NOSSE, timeout=3400))
+    # the block-recursive PLE (Schur complement, L compression) applied to windows: only reachable with the big shapes
+    jobs.append(TraceJob(SMALL, 'ple', shards=5 if tier == 'quick' else 16, args=['--extra', 'views,onlybig'], label='ple-bigviews@' + SMALL, timeout=3400, xmx='6g'))
     return jobs
 
 
